@@ -163,6 +163,12 @@ def build_case(seed, avoid=()):
         while nm in names:
             nm = nm + b'x'
         names.append(nm)
+    if len(bytes(seed)) >= 6 and bytes(seed)[-6] % 4 == 3:
+        # a package whose name is also the name of a directory holding other packages (math.lua next to math/)
+        for nm in list(names):
+            if b'/' in nm and nm.split(b'/')[0] not in names and len(names) < 7:
+                names.append(nm.split(b'/')[0])
+                break
     load = ch.weighted([(150, 'default'), (40, 'rel_cli'), (30, 'abs_cli'), (30, 'abs_env')])
     if load in ('abs_cli', 'abs_env') and len(seed) >= 1 and bytes(seed)[-1] % 4 == 2:
         load = 'rel_dotdot'           # packages in ../libs, found through a relative pattern with a `..`
@@ -464,6 +470,8 @@ def part_graphs(ctx):
             labs.append('use_game_loop')
         if case.get('after_failed_build'):
             labs.append('after_failed_build_in_same_process')
+        if any(b'/' in k and k.split(b'/')[0] in order for k in order):
+            labs.append('package_named_like_a_directory')
         for al, real in case['alias'].items():
             labs.append('one_file_two_names')
             if case['ugl'][al] != case['ugl'][real]:
@@ -556,7 +564,8 @@ def vacuity(total, tier):
     for lab in ('shared_package', 'nested_dir', 'package_requires_package', 'game_loop_stripped', 'game_loop_not_last',
                 'use_game_loop', 'site_stmt', 'site_local', 'site_in_function', 'load_default', 'load_abs_cli',
                 'load_abs_env', 'load_rel_dotdot', 'no_final_newline', 'error_missing_file', 'error_bad_option_value',
-                'one_file_two_names_different_option', 'after_failed_build_in_same_process'):
+                'one_file_two_names_different_option', 'after_failed_build_in_same_process',
+                'package_named_like_a_directory'):
         if total.classes.get(lab, 0) < 2:
             msgs.append('class %s seen %d times' % (lab, total.classes.get(lab, 0)))
     return msgs
